@@ -48,6 +48,7 @@ type Obligation struct {
 	clause      *Clause
 	script      string
 	scriptQF    string
+	scriptAbs   string
 	candidateQF bool
 }
 
